@@ -15,6 +15,23 @@
 #include <algorithm>
 #include <memory>
 
+// "never ... reallocates anything": allocations from the global heap are counted while an assignment through a view runs
+// (plain elements only: the tracked element's event log itself allocates)
+static bool g_news_armed = false;
+static long g_news = 0;
+#ifndef VERIF_TRACKED_ELEM
+#include <cstdlib>
+#include <new>
+void* operator new(std::size_t n) { if(g_news_armed) { ++g_news; } void* p = std::malloc(n == 0 ? 1 : n); if(p == nullptr) { throw std::bad_alloc{}; } return p; }
+void* operator new[](std::size_t n) { return ::operator new(n); }
+void operator delete(void* p) noexcept { std::free(p); }
+void operator delete[](void* p) noexcept { std::free(p); }
+void operator delete(void* p, std::size_t /*n*/) noexcept { std::free(p); }
+void operator delete[](void* p, std::size_t /*n*/) noexcept { std::free(p); }
+#endif
+struct news_guard { news_guard() { g_news_armed = true; } ~news_guard() { g_news_armed = false; } news_guard(news_guard const&) = delete; auto operator=(news_guard const&) -> news_guard& = delete; };
+#define NO_NEWS(...) do { news_guard ng_; __VA_ARGS__; } while(false)
+
 constexpr long GUARD = 8;
 constexpr long SENT = -555;
 
@@ -73,21 +90,21 @@ template<int D> void do_op(view_t<D>& dv, view_t<D>* twin, std::string const& ki
 		backing = multi::array<T, D>(zext<D>(ush), mk(-7));
 		if constexpr(D > 1) { return norm(backing.rotated()); } else { return norm(backing.strided(2)); }
 	};
-	if(kind == "assign_array") { dv = src; }
-	else if(kind == "assign_constview") { auto const& cs = src; dv = cs(); }
+	if(kind == "assign_array") { NO_NEWS(dv = src); }
+	else if(kind == "assign_constview") { auto const& cs = src; NO_NEWS(dv = cs()); }
 	else if(kind == "assign_rotview") {
 		multi::array<T, D> backing; auto sv = rotview(backing);
 		{ long k = 0; fill_canon(sv, 1000, k); }
-		dv = sv;
+		NO_NEWS(dv = sv);
 		read_canon(sv, src_after); have_src = true;
 	}
 	else if(kind == "assign_rdest_rotview" || kind == "assign_rdest_rvalue_rotview" || kind == "assign_rdest_array") {
 		// the DESTINATION view is a temporary (A[i] = ..., A.rotated()[j] = ...): the &&-qualified assignment operators
 		multi::array<T, D> backing; auto sv = rotview(backing);
 		{ long k = 0; fill_canon(sv, 1000, k); }
-		if(kind == "assign_rdest_array") { std::move(dv) = src; }
-		else if(kind == "assign_rdest_rotview") { std::move(dv) = sv; read_canon(sv, src_after); have_src = true; }
-		else { std::move(dv) = std::move(sv); read_canon(sv, src_after); have_src = true; }
+		if(kind == "assign_rdest_array") { NO_NEWS(std::move(dv) = src); }
+		else if(kind == "assign_rdest_rotview") { NO_NEWS(std::move(dv) = sv); read_canon(sv, src_after); have_src = true; }
+		else { NO_NEWS(std::move(dv) = std::move(sv)); read_canon(sv, src_after); have_src = true; }
 	}
 	else if(kind == "assign_padview") {
 		std::vector<long> psh(sh); for(auto& s : psh) { s += 2; }
@@ -106,7 +123,7 @@ template<int D> void do_op(view_t<D>& dv, view_t<D>* twin, std::string const& ki
 #else
 		multi::array<int, D> other(zext<D>(sh));
 		{ long k = 0; fill_canon(other(), 1000, k); }
-		dv = other;
+		NO_NEWS(dv = other);
 #endif
 	}
 	else if(kind == "assign_range") {
@@ -225,7 +242,7 @@ template<int D> void run_interleaved(long id, view_program const& p) {
 						auto* sv = std::get_if<V>(&curB);
 						if(sv == nullptr) { throw unsupported{"shape"}; }
 						{ long k = 0; fill_canon(*sv, 1000, k); }
-						dv = *sv;
+						NO_NEWS(dv = *sv);
 						read_canon(*sv, src_after);
 					}
 				}, curA);
@@ -235,7 +252,7 @@ template<int D> void run_interleaved(long id, view_program const& p) {
 		else if(!fin) { os << ",\"st\":\"abort\",\"at\":\"op\",\"abort\":" << guard::last_json(); }
 		else {
 			std::vector<long> store; for(auto const& e : rootA.elements()) { store.push_back(val_of(e)); }
-			os << ",\"st\":\"ok\",\"src\":"; jlist(os, src_after); os << ",\"sink\":[]";
+			os << ",\"st\":\"ok\",\"news\":" << g_news << ",\"src\":"; jlist(os, src_after); os << ",\"sink\":[]";
 			os << ",\"store\":"; jlist(os, store);
 			os << ",\"guards_ok\":true,\"twin_frame_ok\":true,\"root_ok\":true";
 		}
@@ -246,6 +263,7 @@ template<int D> void run_interleaved(long id, view_program const& p) {
 }
 
 template<int D> void run_case(long id, view_program const& p, std::string const& kind) {
+	g_news_armed = false; g_news = 0;
 	if(kind == "assign_interleaved") { run_interleaved<D>(id, p); return; }
 	long n = 1; for(auto s : p.sizes) { n *= s; }
 	std::vector<T> buf(static_cast<std::size_t>(n + 2 * GUARD), mk(SENT));
@@ -282,7 +300,7 @@ template<int D> void run_case(long id, view_program const& p, std::string const&
 		if(!why.empty()) { os << ",\"st\":\"unsupported\",\"why\":\"" << why << "\""; }
 		else if(!fin) { os << ",\"st\":\"abort\",\"at\":\"op\",\"abort\":" << guard::last_json(); }
 		else {
-			os << ",\"st\":\"ok\"" << body.str();
+			os << ",\"st\":\"ok\",\"news\":" << g_news << body.str();
 			std::vector<long> store;
 			for(long c = 0; c != n; ++c) { store.push_back(val_of(buf[static_cast<std::size_t>(GUARD + c)])); }
 			bool guards = true;
